@@ -99,6 +99,7 @@ def check_insert(before, after, req, ret, ref, V, tick, site):
                 V("nan_cols", site, f"all-NaN column {name} acquired values")
             continue
         if np.isnan(col_r).any():
+            tick("partial_nan_column_not_judged")
             continue  # partially populated columns are not generated; pipeline tables with them are not judged
         tick("curve")
         exp = np.interp(Ta[::-1], xr, col_r[::-1])[::-1]
